@@ -19,10 +19,10 @@ tvars == <<vars, tid, l, phase>>
 
 Ev == Traces[tid].events[l]
 
-CaseOf(ev) == [sigs |-> SigsFromEntries(ev.entries), auth |-> SeqToSet(ev.auth), thr |-> ev.thr, tk |-> "int", gpg |-> ev.gpg, authalt |-> FALSE]
+CaseOf(ev) == [sigs |-> SigsFromEntries(ev.entries), auth |-> SeqToSet(ev.auth), thr |-> ev.thr, tk |-> "int", out |-> "ok", gpg |-> ev.gpg, authalt |-> FALSE]
 
 TInit == /\ tid \in DOMAIN Traces /\ l = 1 /\ phase = "idle"
-         /\ case = [sigs |-> [n \in Names |-> Absent], auth |-> {}, thr |-> 1, tk |-> "int", gpg |-> FALSE, authalt |-> FALSE]
+         /\ case = [sigs |-> [n \in Names |-> Absent], auth |-> {}, thr |-> 1, tk |-> "int", out |-> "ok", gpg |-> FALSE, authalt |-> FALSE]
          /\ pc = "idle" /\ todo = {} /\ good = {} /\ outcome = "none"
 
 Begin == /\ phase = "idle" /\ l <= Len(Traces[tid].events)
